@@ -157,10 +157,12 @@ def r2(ctx):
                     ok = not puts
                 rep.check(hdr_ok and ok, "%s:%s" % (enc_name, kind), "header, then payload for %s: %s" % (kind, desc), "%s writes %s after the header of a %s response (protocol: %s)" % (enc_name, desc, kind, {"Error": "the message text", "Version": "the version text"}.get(kind, "flags(4)+key+value for hits, 8-byte value for counters, nothing otherwise")), eb.loc())
     # key echoed exactly for get-key opcodes
-    t = dispatch.predicate_table(ctx, "is_get_key_command")
-    trues = sorted(op for op, vals in t.items() if vals == {1})
-    mixed = [op for op, vals in t.items() if vals not in ({0}, {1})]
-    rep.check(trues == [0x0C, 0x0D] and not mixed, "is_get_key_command", "true exactly for 0x0c, 0x0d", "is_get_key_command is true for %s (protocol: only GetK 0x0c and GetKQ 0x0d echo the key)" % [hex(x) for x in trues], f.one(HANDLER + "::is_get_key_command").loc())
+    # (the helper predicate, when there is one, is examined too; what decides is the key-echo table below)
+    if f.bodies.get(HANDLER + "::is_get_key_command") is not None:
+        t = dispatch.predicate_table(ctx, "is_get_key_command")
+        trues = sorted(op for op, vals in t.items() if vals == {1})
+        mixed = [op for op, vals in t.items() if vals not in ({0}, {1})]
+        rep.check(trues == [0x0C, 0x0D] and not mixed, "is_get_key_command", "true exactly for 0x0c, 0x0d", "is_get_key_command is true for %s (protocol: only GetK 0x0c and GetKQ 0x0d echo the key)" % [hex(x) for x in trues], f.one(HANDLER + "::is_get_key_command").loc())
     gb = f.one(HANDLER + "::get")
     for op in (0x00, 0x09, 0x0C, 0x0D):
         hdr = Struct(None, None, 0, OrderedDict([("opcode", op)]), F(P("get_request"), "header"))
@@ -178,22 +180,21 @@ def r2(ctx):
 def r3(ctx):
     rep = Report("C11.R3", "response header serialisation: magic(1) opcode(1) key_length(2) extras_length(1) data_type(1) status(2) body_length(4) opaque(4) cas(8) = 24 bytes", floor=10)
     f = ctx.facts
-    b = f.one(CODEC + "::write_header_impl")
-    rep.analysed(b)
-    for p in Interp(f, models=BUF_MODELS).run(b, [P("self"), P("header"), P("dst")]):
-        puts = [(e.extra["width"], e.extra["value"]) for e in p.events if e.kind == "buf" and e.extra.get("op") == "put"]
-        rep.check(len(puts) == 9 and sum(w for w, _ in puts if isinstance(w, int)) == 24, "header:24-bytes", "9 fields, 24 bytes", "the response header is written as %d fields / %s bytes" % (len(puts), sum(w for w, _ in puts if isinstance(w, int))), b.loc())
-        for i, (name, w) in enumerate(HDR_ORDER):
-            got = puts[i] if i < len(puts) else (None, None)
-            rep.check(got[0] == w and got[1] == F(P("header"), name), "header:#%d:%s" % (i, name), "%s written as field #%d (%d bytes)" % (name, i, w), "field #%d of the response header is %s (%s bytes); the protocol puts %s (%d bytes) there" % (i, short(got[1], 40), got[0], name, w), b.loc())
-    # encode_message writes the header first, from the message's own header
-    eb = f.one(CODEC + "::encode_message")
+    # the layout is read off the two encoder entry points (whatever helpers they are organised into)
+    ENC = "<" + CODEC + " as tokio_util::codec::Encoder<" + BRESP + ">>::encode"
     msg = Struct(BRESP, "Noop", 11, OrderedDict([("0", P("r"))]))
-    ok = False
-    for p in Interp(f, models=BUF_MODELS).run(eb, [P("self"), msg]):
-        puts = [e.extra["value"] for e in p.events if e.kind == "buf" and e.extra.get("op") == "put"]
-        ok = len(puts) >= 9 and puts[0] == F(P("r"), "header", "magic") and puts[8] == F(P("r"), "header", "cas")
-    rep.check(ok, "encode_message:header-first", "frame = header of the message, then payload", "encode_message does not start the frame with the message's own header", eb.loc())
+    for enc_name, enc_path, args in (("encode_message", CODEC + "::encode_message", [P("self"), msg]), ("Encoder::encode", ENC, [P("self"), msg, P("dst")])):
+        b = f.one(enc_path)
+        rep.analysed(b)
+        paths = Interp(f, models=BUF_MODELS).run(b, args)
+        rep.check(bool(paths), "%s:paths" % enc_name, "%d paths" % len(paths), "cannot evaluate %s" % enc_name, b.loc())
+        for p in paths:
+            puts = [(e.extra["width"], e.extra["value"]) for e in p.events if e.kind == "buf" and e.extra.get("op") == "put"]
+            tot = sum(w for w, _ in puts if isinstance(w, int))
+            rep.check(len(puts) == 9 and tot == 24, "%s:header:24-bytes" % enc_name, "9 fields, 24 bytes", "the header of a body-less response is written by %s as %d fields / %s bytes" % (enc_name, len(puts), tot), b.loc())
+            for i_, (name, w) in enumerate(HDR_ORDER):
+                got = puts[i_] if i_ < len(puts) else (None, None)
+                rep.check(got[0] == w and got[1] == F(P("r"), "header", name), "%s:header:#%d:%s" % (enc_name, i_, name), "%s written as field #%d (%d bytes)" % (name, i_, w), "field #%d of the response header is %s (%s bytes); the protocol puts %s (%d bytes) there" % (i_, short(got[1], 40), got[0], name, w), b.loc())
     return rep
 
 
